@@ -864,6 +864,23 @@ theorem runChecks_auto (lim : Bool) (c : List CRes) : ∀ (layers : List Layer) 
         · simp only [hf, Bool.false_eq_true, if_false] at hok hstop
           exact ih (i + 1) a' hok ha' hauto' (fun j hj => by have := hstop j hj; omega)
 
+theorem setValue_value (cfg : LCfg) (x : Val) (s : LSt) : (setValue cfg x s).value = x := by
+  unfold setValue
+  split
+  · rename_i ho
+    unfold omittedL at ho
+    simp only [Bool.and_eq_true, beq_iff_eq] at ho
+    exact ho.1.2
+  · rfl
+
+theorem setValue_limits (cfg : LCfg) (x : Val) (s : LSt) : limitsOf cfg (setValue cfg x s) = limitsOf cfg s := by
+  unfold setValue
+  split <;> rfl
+
+theorem setValue_ok (cfg : LCfg) (x : Val) (s : LSt) : (setValue cfg x s).ok = true := by
+  unfold setValue
+  split <;> rfl
+
 theorem within_of_check (cfg : LCfg) (s : LSt) (x : Val) (h : checkLimits cfg s x = true) :
     Within (limitsOf cfg s) x := by
   unfold checkLimits at h
